@@ -61,6 +61,9 @@ func parentOf(p string) string {
 func (s shadow) pickPath(r *Rng) (string, string) {
 	files, dirs := s.files(), s.dirs()
 	name := nsNames[r.Intn(len(nsNames))]
+	if r.Intn(12) == 0 {
+		name = ".a" // a name with a leading dot, now and then (found by the walk, not by the candidate closure)
+	}
 	for tries := 0; tries < 8; tries++ {
 		switch r.Pick(5, 5, 6, 2, 2, 1) {
 		case 0:
@@ -91,9 +94,13 @@ func (s shadow) pickPath(r *Rng) (string, string) {
 					return q, "belowfile"
 				}
 			}
-		case 4: // below a missing directory
-			p := joinP(nsNames[r.Intn(len(nsNames))], name)
-			if _, ok := s[parentOf(p)]; !ok {
+		case 4: // below a missing directory, at the top or inside an existing directory
+			d := "."
+			if len(dirs) > 0 && r.Intn(2) == 0 {
+				d = dirs[r.Intn(len(dirs))]
+			}
+			p := joinP(joinP(d, nsNames[r.Intn(len(nsNames))]), name)
+			if _, ok := s[parentOf(p)]; !ok && depthOf(p) <= nsDepth {
 				return p, "belowmissing"
 			}
 		default:
